@@ -120,7 +120,9 @@ class RawLinkLayer(LinkLayer):
                         and m[6:12] != self.mac_address
                     ):
                         self.receive_callback(m[14:])
-                except NotImplementedError as e:
+                except Exception as e:  # pylint: disable=broad-except
+                    # A frame that cannot be processed is discarded; it must never
+                    # terminate the receive loop.
                     print("Error decoding packet: " + str(e))
             except OSError:
                 break
